@@ -1,0 +1,33 @@
+//go:build verif
+
+package enum
+
+import (
+	stdErrors "errors"
+
+	"github.com/jsightapi/jsight-schema-go-library/fs"
+)
+
+// VerifEvent is one lexical event of the enum scanner. Verification hook; not
+// part of the API.
+type VerifEvent struct {
+	Type  string
+	Begin uint
+	End   uint
+}
+
+// VerifScan runs the enum scanner over content and returns its events.
+func VerifScan(content []byte) ([]VerifEvent, error) {
+	s := newScanner(fs.NewFile("", content))
+	var evs []VerifEvent
+	for {
+		lex, err := s.Next()
+		if stdErrors.Is(err, errEOS) {
+			return evs, nil
+		}
+		if err != nil {
+			return evs, err
+		}
+		evs = append(evs, VerifEvent{Type: lex.Type().String(), Begin: uint(lex.Begin()), End: uint(lex.End())})
+	}
+}
